@@ -78,6 +78,8 @@ def gen_case(rng, idx):
         if kind == "machine":
             case["role"] = str(rng.choice(["source", "consumer", "pti_pto"]))
         case["strict"] = bool(rng.random() < 0.3)
+        if len(case["curve"]) == 1 and not isinstance(case["curve"][0], list) and rng.random() < 0.4:
+            case["curve_form"], case["pair_load"] = "pair", float(rng.choice([1.0, 0.5, 0.75]))
     elif kind in ("serial", "pti_pto"):
         n = int(rng.integers(2, 4))
         equal = rng.random() < 0.5
@@ -104,18 +106,26 @@ def gen_case(rng, idx):
     return case
 
 
+def curve_of(case):
+    """The characteristic as handed to the constructor: a single value also as one (load, efficiency) point, shape (1, 2)."""
+    if case.get("curve_form") == "pair" and len(case["curve"]) == 1 and not isinstance(case["curve"][0], list):
+        return np.array([[case["pair_load"], case["curve"][0]]], dtype=float)
+    return comps.curve_array(case["curve"])
+
+
 def build(case):
     k, rated = case["kind"], case["rated"]
     if k == "basic":
-        return comps.make_converter({"rated": rated, "curve": case["curve"]})
+        return ElectricComponent(type_=TypeComponent.POWER_CONVERTER, name="conv", rated_power=Power_kW(rated), eff_curve=curve_of(case),
+                                 power_type=TypePower.NONE, switchboard_id=SwbId(1))
     if k == "gearbox":
         return MechanicalPropulsionComponent(type_=TypeComponent.GEARBOX, power_type=TypePower.POWER_TRANSMISSION, name="gb",
-                                             rated_power=Power_kW(rated), eff_curve=comps.curve_array(case["curve"]))
+                                             rated_power=Power_kW(rated), eff_curve=curve_of(case))
     if k == "machine":
         pt = {"source": TypePower.POWER_SOURCE, "consumer": TypePower.POWER_CONSUMER, "pti_pto": TypePower.PTI_PTO}[case["role"]]
         return ElectricMachine(type_=TypeComponent.SYNCHRONOUS_MACHINE, name="m", rated_power=Power_kW(rated),
                                rated_speed=Speed_rpm(1000.0), power_type=pt, switchboard_id=SwbId(1),
-                               eff_curve=comps.curve_array(case["curve"]))
+                               eff_curve=curve_of(case))
     if k in ("serial", "pti_pto"):
         spec = {"kind": "drive" if k == "serial" else "pti_pto", "name": "train", "swb": 1, "rated": rated, "stages": case["stages"]}
         return plants.build_electric_component(spec)
@@ -259,11 +269,33 @@ def curve_ownership_check(ctx, case, where):
         ctx.fail("predicate", "component-reads-callers-curve-array", f"conversions of {ps} changed from {before} to {after} when the caller's array was rescaled", where)
 
 
+def given_characteristic_check(ctx, comp, curve, where, label=""):
+    """The component's efficiency is the characteristic it was constructed with: the given value everywhere for a single value,
+    the given ordinate at every given load otherwise (whatever is done between the points)."""
+    clampv = lambda v: min(max(float(v), 0.01), 1.0)
+    if len(curve) == 1 and not isinstance(curve[0], list):
+        pts = [(x, curve[0]) for x in (0.1, 0.5, 1.0)]
+    else:
+        pts = [(q[0], q[1]) for q in curve]
+    for x, v in pts:
+        got = float(comp.get_efficiency_from_load_percentage(float(x)))
+        if abs(got - clampv(v)) > 1e-9:
+            ctx.fail("predicate", "efficiency-not-the-given-characteristic", f"{label}at load {x}: {got}, given {v}", where)
+            return
+
+
 def run_case(ctx, case, model=True):
     where = {"case": case}
     ctx.use_model = model
     if case["kind"] == "basic":
         curve_ownership_check(ctx, case, where)
+    if case["kind"] in ("basic", "gearbox", "machine"):
+        try:
+            given_characteristic_check(ctx, build(case), case["curve"], where)
+            if case.get("curve_form"):
+                ctx.count("single_value_form", case["curve_form"])
+        except Exception:
+            pass
     k, rated = case["kind"], case["rated"]
     ctx.count("kind", k + (":" + case["role"] if k == "machine" else "") + (":equal" if case.get("equal_ratings") else ""))
     try:
@@ -302,6 +334,8 @@ def run_case(ctx, case, model=True):
                 pass
     elif k in ("serial", "pti_pto"):
         stages = comp.components
+        for st_obj, st_spec in zip(stages, case["stages"]):
+            given_characteristic_check(ctx, st_obj, st_spec["curve"], where, label=f"stage {st_obj.name}: ")
         # system efficiency at the eleven sample points = product of the stages' efficiencies, each at its own load
         if model and ctx.model_available:
             loads = ctx.model.call("comp.serial_loads", stages=[{"rated": enc(s.rated_power)} for s in stages])
